@@ -116,8 +116,11 @@ Classes(o) ==
     IF Len(o) < 12 THEN {C_ENC}
     ELSE IF ~EncodingOK(o) THEN {C_ENC} \cup (IF Len(o) >= HeaderLen(Fields(o).opts) /\ ~HdCrcOK(o) THEN {C_HDCRC} ELSE {})
     ELSE IF ~HdCrcOK(o) THEN {C_HDCRC}
-    ELSE LET bad == (IF PlSizeOK(o) THEN {} ELSE {C_PLSIZE}) \cup (IF PlCrcOK(o) THEN {} ELSE {C_PLCRC})
-         IN IF bad = {} THEN {C_OK} ELSE bad
+    ELSE LET sz == IF PlSizeOK(o) THEN {} ELSE {C_PLSIZE}
+             \* a declared payload checksum over an *empty* payload: the document says the bit shall be unset and the
+             \* field zero; whether a non-zero field is then a checksum failure is left open (both readings allowed)
+             crcs == IF PlCrcOK(o) THEN {{}} ELSE IF PayloadOf(o) = <<>> THEN {{}, {C_PLCRC}} ELSE {{C_PLCRC}}
+         IN UNION {IF sz \cup c = {} THEN {C_OK} ELSE sz \cup c : c \in crcs}
 IsRequest(o) == Fields(o).type \in {T_RREQ, T_WREQ}
 
 (* ------------------------------------------------------------------ processing: doc section 3.1 *)
